@@ -45,6 +45,16 @@ def mutations(rng, spec):
     def cp():
         return copy.deepcopy(spec)
     items = spec[key] if key else []
+    # ---- format (part of a block's content wherever two formats can hold the same items) ------------
+    if t == "data3D" and spec["format"] in (1, 2):
+        m = cp()
+        if spec["format"] == 1:
+            m["format"] = 2; m.pop("links", None)
+        else:
+            m["format"] = 1; m["links"] = []
+        yield "format-changed", m
+    if t == "calib" and not items:
+        m = cp(); m["format"] = 3 - spec["format"]; yield "format-changed", m
     # ---- item count ----------------------------------------------------------------------
     if key:
         if items:
